@@ -8,6 +8,8 @@
 //!   render / project-delta / project-alpha / rebuild   single-file helpers
 #[path = "../grammar/alphaproj.rs"]
 mod alphaproj;
+#[path = "../grammar/caseline.rs"]
+mod caseline;
 #[path = "../grammar/flatten.rs"]
 mod flatten;
 #[path = "../grammar/pstr.rs"]
@@ -250,13 +252,48 @@ fn usage() -> ! {
     std::process::exit(2)
 }
 
+/// Self-test of the crash isolation (checks/grammar_common.py pvh_cases): the process aborts on the case with this number.
+fn test_crash_id() -> Option<u64> {
+    static ID: std::sync::OnceLock<Option<u64>> = std::sync::OnceLock::new();
+    *ID.get_or_init(|| std::env::var("PVH_GRAMMAR_TEST_CRASH_ID").ok().and_then(|x| x.parse().ok()))
+}
+
 fn case_source(case: &Value, seed: u64, layout: u64) -> Result<String, String> {
+    if let Some(id) = test_crash_id() {
+        if case.get("id").and_then(|i| i.as_u64()) == Some(id) {
+            std::process::abort();
+        }
+    }
     if let Some(s) = case.get("src").and_then(|s| s.as_str()) {
         return Ok(s.to_string());
     }
     let toks = case.get("toks").and_then(|t| t.as_array()).ok_or("case without toks")?;
     let id = case.get("id").and_then(|i| i.as_u64()).unwrap_or(0);
     render::render(toks, seed, id, layout)
+}
+
+/// Like `pvh::util::par_map`, but thread t takes the items t, t + n, t + 2n, ...: the heavy cases (the scaled family, the wide and
+/// deep cells) stand next to each other at the end of the case file and would otherwise all fall to the last thread.
+fn par_map_strided<T: Sync, R: Send>(inputs: &[T], f: impl Fn(usize, &T) -> R + Sync) -> Vec<R> {
+    let n = std::env::var("PVH_THREADS").ok().and_then(|x| x.parse::<usize>().ok()).unwrap_or(12).max(1);
+    let mut parts: Vec<Vec<R>> = Vec::new();
+    std::thread::scope(|s| {
+        let handles: Vec<_> = (0..n)
+            .map(|t| {
+                let f = &f;
+                s.spawn(move || inputs.iter().enumerate().skip(t).step_by(n).map(|(i, x)| f(i, x)).collect::<Vec<R>>())
+            })
+            .collect();
+        for h in handles {
+            parts.push(h.join().expect("worker thread panicked"));
+        }
+    });
+    let mut iters: Vec<_> = parts.into_iter().map(|p| p.into_iter()).collect();
+    let mut out = Vec::with_capacity(inputs.len());
+    for i in 0..inputs.len() {
+        out.push(iters[i % n].next().expect("strided result"));
+    }
+    out
 }
 
 /// Runs `f` over the lines of `input` in batches (bounded memory), in order, appending to `output`.
@@ -269,7 +306,8 @@ fn stream(input: &str, output: &str, f: impl Fn(&Value) -> String + Sync) {
     let mut out = std::io::BufWriter::new(std::fs::File::create(output).expect("create output file"));
     let mut batch: Vec<String> = Vec::new();
     let mut flush = |batch: &mut Vec<String>| {
-        let lines = par_map(batch, |_, l| match serde_json::from_str::<Value>(l) {
+        // the expected tree is not needed here and may nest deeper than serde_json reads (see caseline.rs)
+        let lines = par_map_strided(batch, |_, l| match serde_json::from_str::<Value>(&caseline::without_key(l, "tree")) {
             Ok(case) => f(&case),
             Err(e) => json!({"toolerror": format!("bad case line: {e}")}).to_string(),
         });
@@ -302,7 +340,10 @@ fn replay(args: &[String]) {
         let mut out = json!({"id": case["id"]});
         let mut ds = Vec::new();
         let mut als = Vec::new();
-        for layout in 0..k {
+        // k seeded random layouts, then one of the three systematic layouts (render.rs: nothing between the tokens and no
+        // end of line at the end of the file / a comment in every gap / an end of line in every gap), in turn by case number
+        let special = render::SPECIAL + case["id"].as_u64().unwrap_or(0) % render::N_SPECIAL;
+        for layout in (0..k).chain(std::iter::once(special)) {
             let src = match case_source(case, seed, layout) {
                 Ok(s) => s,
                 Err(e) => return json!({"id": case["id"], "toolerror": e}).to_string(),
@@ -393,9 +434,9 @@ fn corpus(args: &[String]) {
 
 fn show(args: &[String]) {
     let case: Value = if std::path::Path::new(&args[0]).exists() {
-        serde_json::from_str(&std::fs::read_to_string(&args[0]).unwrap()).unwrap()
+        serde_json::from_str(&caseline::without_key(&std::fs::read_to_string(&args[0]).unwrap(), "tree")).unwrap()
     } else {
-        serde_json::from_str(&args[0]).unwrap()
+        serde_json::from_str(&caseline::without_key(&args[0], "tree")).unwrap()
     };
     let layout: u64 = args[1].parse().unwrap();
     let seed: u64 = args[2].parse().unwrap();
